@@ -53,11 +53,11 @@ def exOps : List VOp :=
   [.put exF exTime, .mkdir (str "d") exTime, .lock (str "a"), .delete (str "d"), .delete (str "b"), .unlock (str "c.d"),
    .retype (str "c.d") (some 4) (some 0), .retype (str "c.d") none (some 0)]
 
-theorem exOps_root : ∀ op ∈ exOps, op.Root (volName (hdrOf (formatted 10).raw)) := by
+theorem exOps_root : ∀ op ∈ exOps, op.Ok (volName (hdrOf (formatted 10).raw)) := by
   intro op hop
   simp only [exOps, List.mem_cons, List.not_mem_nil, or_false] at hop
   rcases hop with rfl | rfl | rfl | rfl | rfl | rfl | rfl | rfl <;>
-    exact ⟨rootPath_simple _ _ (by decide) (by decide) (by decide),
+    exact ⟨Or.inl (rootPath_simple _ _ (by decide) (by decide) (by decide)),
       fun p t a h => (by cases h <;> omega),
       fun f t h => (by cases h <;> exact exF_args),
       fun p t h => (by cases h <;> exact ⟨by decide, by decide⟩)⟩
